@@ -206,9 +206,23 @@ pub fn c19_entry(c: &StreamCase, st: &mut Stats) -> CheckResult {
 /// real threads: the producer runs while the receiver polls; only the timing-independent prefix
 /// invariant is checked
 fn c19_threads(c: &StreamCase, st: &mut Stats) -> CheckResult {
-    let (s, r) = crossbeam_channel::unbounded::<BddNode>();
+    // `chain` selects a bounded channel here: the producer then blocks until the receiver polls
+    let cap = if c.chain { Some(1 + c.sched.len() % 3) } else { None };
+    let (s, r) = match cap {
+        Some(n) => crossbeam_channel::bounded::<BddNode>(n),
+        None => crossbeam_channel::unbounded::<BddNode>(),
+    };
     let prog = c.prog.clone();
+    let done = std::sync::Arc::new(std::sync::atomic::AtomicBool::new(false));
+    let done2 = done.clone();
     let producer = std::thread::spawn(move || -> Result<Vec<BddNode>, String> {
+        struct SetOnDrop(std::sync::Arc<std::sync::atomic::AtomicBool>);
+        impl Drop for SetOnDrop {
+            fn drop(&mut self) {
+                self.0.store(true, std::sync::atomic::Ordering::SeqCst);
+            }
+        }
+        let _g = SetOnDrop(done2);
         let mut sh = Shadow::with_bdd(prog.k as usize, Bdd::with_sender(s));
         for (i, op) in prog.ops.iter().enumerate() {
             sh.step(op).map_err(|e| format!("producer step {i}: {e}"))?;
@@ -220,11 +234,29 @@ fn c19_threads(c: &StreamCase, st: &mut Stats) -> CheckResult {
     });
     let mut recv = Bdd::with_receiver(r);
     let mut snaps: Vec<(usize, bool, Vec<BddNode>)> = Vec::new();
-    for s in c.sched.iter().cycle().take(c.sched.len().max(1) * 3) {
-        if let Sched::PollRelay(t) | Sched::PollRecv(t) = s {
-            let t = crate::gen::pick(*t, 40);
-            let ret = recv.recv(Term(t));
+    let polls: Vec<usize> = c
+        .sched
+        .iter()
+        .filter_map(|s| match s {
+            Sched::PollRelay(t) | Sched::PollRecv(t) => Some(crate::gen::pick(*t, 40)),
+            _ => None,
+        })
+        .collect();
+    let mut i = 0usize;
+    // keep polling until the producer is done (with a bounded channel it depends on us)
+    while !done.load(std::sync::atomic::Ordering::SeqCst) {
+        let t = if polls.is_empty() { 1_000_000 } else { polls[i % polls.len()] };
+        i += 1;
+        let ret = recv.recv(Term(t));
+        if snaps.len() < 64 {
             snaps.push((t, ret, recv.nodes.clone()));
+        }
+        // guarantee progress: also ask for the next handle not yet present (a poll for a handle
+        // that is already present consumes nothing, and a bounded channel would stay full)
+        let next = recv.nodes.len();
+        let ret = recv.recv(Term(next));
+        if snaps.len() < 64 {
+            snaps.push((next, ret, recv.nodes.clone()));
         }
         std::thread::yield_now();
     }
@@ -234,7 +266,13 @@ fn c19_threads(c: &StreamCase, st: &mut Stats) -> CheckResult {
     let ret = recv.recv(Term(nodes.len() + 1));
     snaps.push((nodes.len() + 1, ret, recv.nodes.clone()));
     if recv.nodes != nodes {
-        return Err("threaded: after the producer finished and the channel was drained the tables differ".into());
+        return Err(format!(
+            "threaded ({}): after the producer finished and the channel was drained the receiver holds {} nodes, the producer {}{}",
+            match cap { Some(n) => format!("bounded channel of capacity {n}"), None => "unbounded channel".into() },
+            recv.nodes.len(),
+            nodes.len(),
+            if recv.nodes.len() == nodes.len() { " (different content)" } else { "" }
+        ));
     }
     let mut mid = false;
     for (t, ret, snap) in &snaps {
@@ -252,8 +290,11 @@ fn c19_threads(c: &StreamCase, st: &mut Stats) -> CheckResult {
     if mid {
         st.label("threaded:observed_strict_prefix");
     }
+    if cap.is_some() {
+        st.label("threaded:bounded_channel");
+    }
     if nodes.len() > 4 {
-        st.nontrivial(stable_hash(c), || json!({"threaded": true, "nodes": nodes.len()}));
+        st.nontrivial(stable_hash(c), || json!({"threaded": true, "nodes": nodes.len(), "capacity": cap}));
     }
     Ok(Outcome::Ok)
 }
@@ -285,7 +326,7 @@ pub fn c19(tier: Tier) -> PropSpec {
                interleavings, also inside one operation. After every poll: table == producer's first len nodes, return value iff \
                handle present afterwards iff handle was in table-or-channel; stream == nodes[2..]; after draining tables identical. \
                For streams of <= 7 messages all one- and two-poll schedules x all requested handles are enumerated exhaustively. \
-               Part 'threads' runs the producer in a real thread against a concurrently polling receiver (prefix invariant only). \
+               Part 'threads' runs the producer in a real thread (unbounded or bounded channel of capacity 1..3, where the producer blocks until the receiver polls) against a concurrently polling receiver: prefix invariant at every poll, identical tables at the end. \
                Non-trivial: a poll with 0 < delivered < total asking for a handle not yet present.",
         assumptions: vec![
             "unbounded crossbeam channel: the producer never blocks, so the set of observable interleavings equals the set of prefix cuts",
